@@ -91,7 +91,8 @@ Record params := mkParams {
 
 (** facts about the tree sequence that the front end looks at *)
 Record tsfacts := mkFacts {
-  f_nomut : bool;            (* ts.num_mutations == 0 *)
+  f_nomut : bool;            (* ts.num_mutations == 0  (the MUTATION table is empty; the site table may well
+                                be non-empty: bare sites, cleared mutations, simplify(filter_sites=False)) *)
   f_multitree : bool;        (* ts.num_trees > 1 *)
   f_contemporary : bool;     (* every sample node has time 0 *)
   f_unary : bool;            (* util.contains_unary_nodes(ts) *)
